@@ -8,6 +8,9 @@ require (
 	github.com/xjslang/xjs v0.0.0
 )
 
-require golang.org/x/text v0.3.8 // indirect
+require (
+	github.com/davecgh/go-spew v1.1.1 // indirect
+	golang.org/x/text v0.3.8 // indirect
+)
 
 replace github.com/xjslang/xjs => /repo
